@@ -1,0 +1,90 @@
+//go:build verif
+// +build verif
+
+// Synchronous construction of the consensus message entry point for the C14 (RLP) verification driver under
+// /verif: a MessageHandler wired, as Server.StartMining wires it, to a real Proposal (processPriorityMessage,
+// processProposedBlockMsg) and a real Voter (processVoteMsg), with the look-back and sortition callbacks supplied
+// by the caller.  No goroutine is started.  Nothing here is compiled into a normal build.
+
+package ucon
+
+import (
+	"crypto/ecdsa"
+	"fmt"
+	"math/big"
+
+	"github.com/youchainhq/go-youchain/bls"
+	"github.com/youchainhq/go-youchain/common"
+	"github.com/youchainhq/go-youchain/core/state"
+	"github.com/youchainhq/go-youchain/core/types"
+	"github.com/youchainhq/go-youchain/event"
+	"github.com/youchainhq/go-youchain/params"
+	"github.com/youchainhq/go-youchain/youdb"
+)
+
+type verifRlpParams struct{ yp *params.YouParams }
+
+func (p verifRlpParams) CurrentCaravelParams() *params.CaravelParams { return &p.yp.CaravelParams }
+func (p verifRlpParams) CertificateParams(round *big.Int) (*params.CaravelParams, error) {
+	if round.Uint64()%params.ACoCHTFrequency != 0 { // as Server.CertificateParams
+		return nil, fmt.Errorf("round %d is not a certificate round", round)
+	}
+	return &p.yp.CaravelParams, nil
+}
+func (p verifRlpParams) CurrentYouParams() *params.YouParams { return p.yp }
+
+// VerifRlpHandler is a MessageHandler with its real downstream processors.
+type VerifRlpHandler struct {
+	MH       *MessageHandler
+	Proposal *Proposal
+	Voter    *Voter
+}
+
+// VerifRlpNewHandler builds the handler.  getVal answers the look-back validator query; stake is the stake and
+// threshold reported for every voter; sortition/priority verification always succeeds (the property under test is
+// what happens to hostile payloads before and after those checks, not the checks themselves).
+func VerifRlpNewHandler(rawSk *ecdsa.PrivateKey, blsSk bls.SecretKey, getVal GetLookBackValidatorFn, yp *params.YouParams) *VerifRlpHandler {
+	mux := new(event.TypeMux)
+	prop := NewProposal(mux,
+		func(pubkey *ecdsa.PublicKey, data *ConsensusCommon) error { return nil },
+		func(round *big.Int, roundIndex uint32) bool { return true })
+	voter := NewVoter(youdb.NewMemDatabase(), rawSk, blsSk, mux,
+		func(pubKey *ecdsa.PublicKey, data *SortitionData, lbType params.LookBackType) error { return nil },
+		func(round *big.Int, roundIndex uint32, step uint32, lbType params.LookBackType) (bool, *StepView) {
+			return false, nil
+		},
+		prop.blockhashWithMaxPriority, prop.getBlockInCache,
+		func(round *big.Int, addr common.Address, isProposer bool, lbType params.LookBackType) (*big.Int, *big.Int, uint64, params.ValidatorKind, uint8, error) {
+			return big.NewInt(10), big.NewInt(40), 20, params.KindChamber, params.ValidatorOnline, nil
+		},
+		func(round *big.Int, kind params.ValidatorKind, lbType params.LookBackType) uint64 { return 4 },
+		verifRlpParams{yp})
+	mh := NewMessageHandler(rawSk, mux, getVal,
+		func(ev ReceivedMsgEvent) (error, bool) { return nil, true },
+		prop.processPriorityMessage, prop.processProposedBlockMsg, voter.processVoteMsg)
+	return &VerifRlpHandler{MH: mh, Proposal: prop, Voter: voter}
+}
+
+type verifRlpLookBack struct {
+	verifRlpParams
+	vld state.ValidatorReader
+}
+
+func (l verifRlpLookBack) GetLookBackVldReader(cp *params.CaravelParams, num *big.Int, lbType params.LookBackType) (state.ValidatorReader, error) {
+	return l.vld, nil
+}
+
+// VerifRlpSetContext moves handler and voter to (round, roundIndex) synchronously, through the same updateContext
+// calls their event loops make on a ContextChangeEvent (step "proposal": the voter casts no vote of its own).  vld
+// answers every look-back validator-set query of the voter.
+func (h *VerifRlpHandler) VerifRlpSetContext(round *big.Int, roundIndex uint32, vld state.ValidatorReader, yp *params.YouParams) {
+	ev := ContextChangeEvent{Round: round, RoundIndex: roundIndex, Step: UConStepProposal}
+	h.MH.updateContext(ev)
+	h.Voter.SetLookBackMgr(verifRlpLookBack{verifRlpParams{yp}, vld})
+	h.Voter.updateContext(ev)
+}
+
+// VerifRlpBlockForProposal is a helper so that the driver can build a block whose header carries consensus data.
+func VerifRlpBlockForProposal(h *types.Header, txs []*types.Transaction) *types.Block {
+	return types.NewBlock(h, txs, nil)
+}
